@@ -106,23 +106,23 @@ CHECKS = {
 # history / re-use dimensions added in the later building rounds (DESIGN.md 8.5, 8.6); appended to the level text
 EXTRA = {
  "C01": "Integer states up to 2^31-1 and real-valued falling factorials (outside the open window m-1 < s < m) are asserted. Reactions may share one parameter-dictionary object, and every case is evaluated a second time after history operations on the same model (re-initialisation, new values, another model built, a simulation). ASan/UBSan replay in the thorough tier.",
- "C02": "The same expression is also evaluated after pickling the term, inside a deep-copied / pickled model, and re-compiled in the same process for another declaration order of the same species.",
+ "C02": "The same expression is also evaluated after pickling the term, inside a deep-copied / pickled model, and re-compiled in the same process for another declaration order of the same species. General rates are also probed in their stochastic and stochastic-volume forms; a rule whose species are declared only after it must be refused or mean the written formula.",
  "C03": "Refused create_reaction calls (failing in the rate law or in the delay stage, some introducing new species) are interleaved with the valid ones in the incremental routes, one of which lets reactions introduce the species; species indices must be a bijection.",
- "C04": "Specs may share one parameter dictionary. Interfaces prepared or used before another model's interface is prepared / simulated must still follow their own equations.",
- "C05": "A large-count template (thousands of copies, third-order reactions whose combination count exceeds 2^32).",
+ "C04": "Specs may share one parameter dictionary. Interfaces prepared or used before another model's interface is prepared / simulated must still follow their own equations. The tolerance band is measured per case with an independent scipy.odeint run on the reference equations (cases that run cannot solve are not judged); an interface built before set_species / set_params must simulate the values set afterwards.",
+ "C05": "A large-count template (thousands of copies, third-order reactions whose combination count exceeds 2^32). A template with fewer copies than a repeated reactant needs (the reaction can never fire) turns 'no minus one' propensity defects into runs that end outside the reachable set instead of endless simulations.",
  "C06": "ASan/UBSan replay in the thorough tier.",
- "C13": "Species carrying both initialAmount and initialConcentration (tiny non-zero amounts included).",
- "C14": "Exports preceded by an export of the same or an identical model in the other mode.",
- "C09": "Declaration order of independent rules is shuffled. ASan/UBSan replay in the thorough tier.",
- "C07": "Every lattice call is made twice on one model / interface object, optionally after an earlier run with other options and with in-place parameter edits between the two calls; a two-point grid is included.",
- "C08": "Refused edits and failing simulation calls are part of the history alphabet; interfaces built (and optionally used) before the final value edits must simulate the current values.",
- "C10": "Models assembled incrementally with refused delayed calls on the way. Runs continued in a second call from the returned state, time and queue are held to the same accounting and (one row wider) windows. ASan/UBSan replay in the thorough tier.",
- "C11": "Output grids may start after the initial time; the constant-volume law is also reached through the safe interface, a Volume object, the safe flag and the delay-capable volume simulator, on templates that carry part of their products in a zero-delay delayed part.",
+ "C13": "Species carrying both initialAmount and initialConcentration (tiny non-zero amounts included). A third of the documents are read with input_printout=True; duplicate species references; the comparison scale of a term is its magnitude without cancellation.",
+ "C14": "Exports preceded by an export of the same or an identical model in the other mode. In-place set_params between two exports; a tenth of the mass-action constants are exactly 0; a used parameter written without a value, or a law evaluating to NaN, is a violation.",
+ "C09": "Declaration order of independent rules is shuffled. ASan/UBSan replay in the thorough tier. A quarter of the cases use decimal steps (0.05, 0.1, 0.3, 0.7) whose grid times carry round-off; scheduled times are exact grid elements.",
+ "C07": "Every lattice call is made twice on one model / interface object, optionally after an earlier run with other options and with in-place parameter edits between the two calls; a two-point grid is included. A rule for the initial instant ('start') is part of the first row.",
+ "C08": "Refused edits and failing simulation calls are part of the history alphabet; interfaces built (and optionally used) before the final value edits must simulate the current values. The definitive initial values are set by one call or by one call per species; deterministic history-vs-twin runs agree to the integrator's tolerance, repeated runs of one object to 1e-10, stochastic runs bit for bit.",
+ "C10": "Models assembled incrementally with refused delayed calls on the way. Runs continued in a second call from the returned state, time and queue are held to the same accounting and (one row wider) windows. ASan/UBSan replay in the thorough tier. Half of the gamma law cases use shape exactly 1.",
+ "C11": "Output grids may start after the initial time; the constant-volume law is also reached through the safe interface, a Volume object, the safe flag and the delay-capable volume simulator, on templates that carry part of their products in a zero-delay delayed part. The Hill template cycles through the families with the exponent exactly 1.",
  "C12": "A second export of the same object after in-place value changes is re-imported and compared; scheduled rule times with many significant digits.",
- "C15": "Differing condition key sets; a prepared and used InferenceSetup re-configured through its setters and re-prepared; the stochastic cost on a rule-driven model with per-trajectory parameter conditions (also empty ones) and square N x T time arrays; dictionary key orders independent of listing orders.",
+ "C15": "Differing condition key sets; a prepared and used InferenceSetup re-configured through its setters and re-prepared; the stochastic cost on a rule-driven model with per-trajectory parameter conditions (also empty ones) and square N x T time arrays; dictionary key orders independent of listing orders. Initial-condition dictionaries naming different species subsets; a setter call that is refused followed by nothing but a re-preparation.",
  "C16": "End points of the closed support where the density is finite and positive (gamma shape 1 at 0, beta shape 1 at 0 / 1) are asserted.",
- "C17": "Original and copy must still agree after the same further edits; a parameter-free rule added to an initialised model right before copying; sub-lineages and partial lineages (links that leave the container) are round-tripped. ASan/UBSan replay in the thorough tier.",
- "C18": "In-place parameter updates between passes on one model object; evaluations at a non-zero time; zero-order reactions and time-dependent rates; a SensitivityAnalysis helper object re-used after other models' helpers and simulations.",
+ "C17": "Original and copy must still agree after the same further edits; a parameter-free rule added to an initialised model right before copying; sub-lineages and partial lineages (links that leave the container) are round-tripped. ASan/UBSan replay in the thorough tier. Every third lineage model carries volume, division and death events at once.",
+ "C18": "In-place parameter updates between passes on one model object; evaluations at a non-zero time; zero-order reactions and time-dependent rates; a SensitivityAnalysis helper object re-used after other models' helpers and simulations. Parameters up to 25000 (the difference step is an absolute 0.01); a twin with the opposite species order is built and differentiated first.",
  "C19": "Decoy division rules / events with opposite splitters; the same GeneralVolumeSplitter object re-configured repeatedly; lineage grids with non-representable steps and start times far from 0. ASan/UBSan replay in the thorough tier.",
  "C20": "Stating the time a ticked queue is already at is a no-op.",
 }
